@@ -419,6 +419,10 @@ func (st *stepper) isPath(e ast.Expr) bool {
 		case *ast.SelectorExpr:
 			e = x.X
 		case *ast.CallExpr:
+			if isIntConv(x) {
+				e = x.Args[0]
+				continue
+			}
 			if _, ok := x.Fun.(*ast.SelectorExpr); !ok {
 				return false
 			}
@@ -535,15 +539,35 @@ func tidy(t string) string {
 }
 
 // argText: the written value, outer integer conversion dropped, leading "this." dropped.
+func isIntConv(c *ast.CallExpr) bool {
+	if len(c.Args) != 1 {
+		return false
+	}
+	if id, ok := c.Fun.(*ast.Ident); ok {
+		switch id.Name {
+		case "int64", "int32", "int16", "int", "byte", "uint8", "int8":
+			return true
+		}
+	}
+	return false
+}
+
 func (st *stepper) argText(e ast.Expr) (string, bool, uint64) {
-	e = stripParens(e)
-	if c, ok := e.(*ast.CallExpr); ok && len(c.Args) == 1 {
-		if id, ok := c.Fun.(*ast.Ident); ok {
-			switch id.Name {
-			case "int64", "int32", "int16", "int", "byte", "uint8", "int8":
-				e = stripParens(c.Args[0])
+	// drop outer integer conversions and follow single-definition locals (a temporary that only names
+	// the written value is transparent)
+	for i := 0; i < 8; i++ {
+		e = stripParens(e)
+		if c, ok := e.(*ast.CallExpr); ok && isIntConv(c) {
+			e = c.Args[0]
+			continue
+		}
+		if id, ok := e.(*ast.Ident); ok && st.loc[id.Name] {
+			if d, ok := st.defs[id.Name]; ok {
+				e = d
+				continue
 			}
 		}
+		break
 	}
 	if bl, ok := e.(*ast.BasicLit); ok && bl.Kind == token.INT {
 		v, _ := intOf(bl.Value)
